@@ -258,21 +258,31 @@ def make_corpus(ctx: Ctx) -> dict:
         mods = head + tail[: max(0, nstd - len(head))]
     else:
         mods = corpus.all_stdlib(REPO)           # every module of the bundled typeshed stdlib (target 3.12)
-    files: dict[str, str] = {"c11_all": "".join(f"import {m}\n" for m in mods),
+    files: dict[str, str] = {"c11_all": "".join(f"import {m}\n" for m in mods) + "import mypy_extensions\n",
                              "c11_td": corpus.TD_MODULE, "c11_td_main": corpus.TD_MAIN}
     gens = []
+    touch = ["c11_td_main", "c11_enum_main", "c11_ts_main"]
+    files.update({"c11_enum": corpus.ENUM_MODULE, "c11_enum_main": corpus.ENUM_MAIN,
+                  "c11_ts": corpus.TS_MODULE, "c11_ts_main": corpus.TS_MAIN})
     for i in range(ctx.pick(4, 24)):
         name, text = corpus.gen_module(rng, i)
         files[name] = text
         gens.append(name)
+        uname, utext = corpus.gen_use(name, text, i)       # its using module: rechecked in the warm run
+        files[uname] = utext
+        touch.append(uname)
     name, text = corpus.gen_user(rng, gens)
     files[name] = text
+    touch.append(name)
+    name, text = corpus.gen_use_std(REPO, rng, mods, ctx.pick(600, 6000))
+    files[name] = text
+    touch.append(name)
     for m, text in files.items():
         with open(os.path.join(root, m + ".py"), "w") as f:
             f.write(text)
         if m != "c11_all":
             SOURCES[m] = text
-    return {"root": root, "files": files, "stdlib": mods, "generated": gens}
+    return {"root": root, "files": files, "stdlib": mods, "generated": gens, "touch": touch}
 
 
 def run_build(ctx: Ctx, corp: dict, cache_dir: str, ff: bool, pyver: tuple[int, int] | None = None):
@@ -341,6 +351,17 @@ def compare_tables(ctx: Ctx, fmt: str, what: str, left: dict, right: dict, limit
     from harness.c11 import dump
     differing: set = set()
     td_lost: list[dict] = []
+    groups: dict[str, list[dict]] = {}
+
+    def _at(d, pth: str):
+        for part in pth.strip("/").split("/"):
+            if part == "":
+                continue
+            try:
+                d = d[int(part)] if isinstance(d, list) else d[part]
+            except (KeyError, IndexError, ValueError, TypeError):
+                return None
+        return d
     for mod in sorted(left):
         if mod not in right:
             continue
@@ -360,6 +381,8 @@ def compare_tables(ctx: Ctx, fmt: str, what: str, left: dict, right: dict, limit
                                f"{what}: {mod}.{sym} exists only {'before' if sym in na else 'after'} the round trip",
                                {"module": mod, "symbol": sym, "format": fmt})
                 continue
+            if na[sym] != nb[sym] and what.startswith("fresh"):
+                dump.canon_pair(na[sym], nb[sym])
             if na[sym] == nb[sym]:
                 continue
             differing.add((mod, sym))
@@ -370,12 +393,27 @@ def compare_tables(ctx: Ctx, fmt: str, what: str, left: dict, right: dict, limit
             path, l, r = dd[0] if dd else ("?", "", "")
             if td_order_only(na[sym], nb[sym]):
                 td_lost.append({"module": mod, "symbol": sym, "attribute": path, "before": l, "after": r})
-            elif limit[0] > 0:
-                limit[0] -= 1
-                ctx.report({"class": "attribute-differs", "format": fmt, "attribute": path.split("/")[-1]},
-                           f"{what}: {mod}.{sym} attribute {path}: {l[:90]} → {r[:90]}",
-                           {"module": mod, "symbol": sym, "attribute": path, "before": l, "after": r, "format": fmt,
-                            "all_differences": dd[:8], "sources": src_of(mod)})
+            else:
+                # group by (attribute, kind of change): one report per group, with the affected symbols in the replay
+                comps = [c for c in path.split("/") if c and not c.isdigit()]
+                attr = comps[-1] if comps else "?"
+                obs = {"class": "attribute-differs", "format": fmt, "attribute": attr}
+                va, vb = _at(na[sym], path), _at(nb[sym], path)
+                pa, pb = _at(na[sym], path.rsplit("/", 1)[0]), _at(nb[sym], path.rsplit("/", 1)[0])
+                if isinstance(pa, list) and isinstance(pb, list) and path.rsplit("/", 1)[-1].isdigit() \
+                        and sorted(map(repr, pa)) == sorted(map(repr, pb)):
+                    obs["order_only"] = True
+                elif isinstance(va, (bool, int, str, type(None))) and isinstance(vb, (bool, int, str, type(None))) \
+                        and len(repr(va)) + len(repr(vb)) < 24:
+                    obs["change"] = f"{va!r}->{vb!r}"
+                groups.setdefault(json.dumps(obs, sort_keys=True), []).append(
+                    {"module": mod, "symbol": sym, "attribute": path, "before": l, "after": r, "all_differences": dd[:6]})
+    for key, items in list(groups.items())[: max(limit[0], 0)]:
+        obs = json.loads(key)
+        f0 = items[0]
+        ctx.report(obs, f"{what}: {f0['module']}.{f0['symbol']} attribute {f0['attribute']}: {f0['before'][:80]} → {f0['after'][:80]}"
+                        + (f" (and {len(items) - 1} more symbols with the same kind of difference)" if len(items) > 1 else ""),
+                   dict(f0, format=fmt, sources=src_of(f0["module"]), others=[(i["module"], i["symbol"], i["attribute"]) for i in items[1:30]]))
     if td_lost:
         ctx.coverage.setdefault("typeddict_order_lost", {})[fmt] = len(td_lost)
         f0 = td_lost[0]
@@ -456,6 +494,90 @@ def determinism_search(ctx: Ctx, trees: dict, ff: bool) -> None:
     ctx.coverage.setdefault("determinism", {})["binary" if ff else "json"] = {"modules": len(trees), "differing": nbad}
 
 
+class FixupCoverage:
+    """Which visitors / branches of mypy/fixup.py run while the corpus is reloaded (sys.monitoring LINE events on the
+    code objects of fixup.py only; each line reports once).  The branch list comes from the AST of fixup.py."""
+    TOOL = 4
+
+    def __init__(self) -> None:
+        import sys as _sys
+        import mypy.fixup as fx
+        self.fx = fx
+        self.hit: set[int] = set()
+        self.mon = _sys.monitoring
+        self.active = False
+        try:
+            self.mon.use_tool_id(self.TOOL, "verif-c11-fixup")
+        except ValueError:
+            return
+        self.active = True
+        E = self.mon.events
+
+        def on_line(code, line):
+            self.hit.add(line)
+            return self.mon.DISABLE
+        self.mon.register_callback(self.TOOL, E.LINE, on_line)
+        self.codes = []
+        import inspect
+        for obj in vars(fx).values():
+            if inspect.isclass(obj) and obj.__module__ == fx.__name__:
+                for f in vars(obj).values():
+                    if inspect.isfunction(f):
+                        self.codes.append(f.__code__)
+            elif inspect.isfunction(obj) and obj.__module__ == fx.__name__:
+                self.codes.append(obj.__code__)
+        for c in self.codes:
+            self.mon.set_local_events(self.TOOL, c, E.LINE)
+        self.mon.restart_events()
+
+    def stop(self, ctx: Ctx) -> None:
+        import ast
+        if not self.active:
+            return
+        for c in self.codes:
+            self.mon.set_local_events(self.TOOL, c, 0)
+        self.mon.register_callback(self.TOOL, self.mon.events.LINE, None)
+        self.mon.free_tool_id(self.TOOL)
+        self.active = False
+        tree = ast.parse(open(self.fx.__file__).read())
+        methods: dict[str, bool] = {}
+        branches: dict[str, bool] = {}
+        auto_exempt: set[str] = set()
+        for cls in tree.body:
+            funcs = [(cls.name + ".", f) for f in cls.body if isinstance(f, ast.FunctionDef)] if isinstance(cls, ast.ClassDef) \
+                else ([("", cls)] if isinstance(cls, ast.FunctionDef) else [])
+            for prefix, f in funcs:
+                name = prefix + f.name
+                first = next((st for st in f.body if not (isinstance(st, ast.Expr) and isinstance(st.value, ast.Constant))), None)
+                methods[name] = first is not None and any(ln in self.hit for ln in range(first.lineno, (first.end_lineno or first.lineno) + 1))
+                for node in ast.walk(f):
+                    if isinstance(node, (ast.If, ast.For)):
+                        kind = "if" if isinstance(node, ast.If) else "for"
+                        b0 = node.body[0]
+                        branches[f"{name}:{node.lineno}:{kind} {ast.unparse(node.test if kind == 'if' else node.iter)[:50]}"] = \
+                            any(ln in self.hit for ln in range(b0.lineno, (b0.end_lineno or b0.lineno) + 1))
+                        if isinstance(node, ast.If) and node.orelse and not (len(node.orelse) == 1 and isinstance(node.orelse[0], ast.If)):
+                            e0 = node.orelse[0]
+                            branches[f"{name}:{node.lineno}:else"] = any(
+                                ln in self.hit for ln in range(e0.lineno, (e0.end_lineno or e0.lineno) + 1))
+                            else_txt = " ".join(ast.unparse(x) for x in node.orelse)
+                            if any(w in else_txt for w in ("allow_missing", "missing_info", "missing_alias")):
+                                auto_exempt.add(f"{name}:{node.lineno}:else")
+        # only reachable in fine-grained / daemon loads (allow_missing) or never by design (raise)
+        exempt = ("allow_missing", "missing_info", "missing_alias", "visit_erased_type", "visit_partial_type",
+                  "stnode is value", "stnode is not None", "not self.allow_missing")
+
+        def is_exempt(k: str) -> bool:
+            return k in auto_exempt or any(x in k for x in exempt)
+        ctx.coverage["fixup_coverage"] = {
+            "visitors_hit": sum(methods.values()), "visitors_total": len(methods),
+            "visitors_not_hit": sorted(k for k, v in methods.items() if not v),
+            "branches_hit": sum(branches.values()), "branches_total": len(branches),
+            "branches_not_hit": sorted(k for k, v in branches.items() if not v and not is_exempt(k)),
+            "branches_not_hit_exempt(daemon/allow_missing or unreachable)": sorted(k for k, v in branches.items() if not v and is_exempt(k)),
+        }
+
+
 def structural_roundtrip(ctx: Ctx, corp: dict, tag: str = "") -> dict:
     from harness.c11 import dump
     loaded: dict[str, dict] = {}
@@ -464,9 +586,11 @@ def structural_roundtrip(ctx: Ctx, corp: dict, tag: str = "") -> dict:
     info: dict = {}
     for fmt, ff in (("binary", True), ("json", False)):
         cache = os.path.join(ctx.tmp, "cache_" + fmt + tag)
-        # restore the file the previous format's warm run edited
-        with open(os.path.join(corp["root"], "c11_td_main.py"), "w") as f:
-            f.write(corp["files"]["c11_td_main"])
+        # restore the files the previous format's warm run edited
+        touch = corp.get("touch", ["c11_td_main"])
+        for m in touch:
+            with open(os.path.join(corp["root"], m + ".py"), "w") as f:
+                f.write(corp["files"][m])
         res1, msgs1, _ = run_build(ctx, corp, cache, ff)
         if res1 is None:
             ctx.report({"class": "crash", "format": fmt, "phase": "cold/write"}, f"cold build crashed ({fmt}): {msgs1[-2][:200]}",
@@ -481,8 +605,10 @@ def structural_roundtrip(ctx: Ctx, corp: dict, tag: str = "") -> dict:
             ctx.node_bytes = collect_node_bytes(ctx, res1.files)  # type: ignore[attr-defined]
         determinism_search(ctx, res1.files, ff)
         del res1
-        with open(os.path.join(corp["root"], "c11_td_main.py"), "a") as f:
-            f.write("# touched\n")
+        for m in touch:
+            with open(os.path.join(corp["root"], m + ".py"), "a") as f:
+                f.write("# touched\n")
+        fixcov = FixupCoverage() if fmt == "binary" and not tag else None
         res2, msgs2, _ = run_build(ctx, corp, cache, ff)
         if res2 is None:
             ctx.report({"class": "crash", "format": fmt, "phase": "warm/read"},
@@ -503,23 +629,36 @@ def structural_roundtrip(ctx: Ctx, corp: dict, tag: str = "") -> dict:
                        f"walking the reloaded symbol tables crashed ({fmt}): {type(e).__name__}: {str(e)[:200]}",
                        {"traceback": traceback.format_exc()[-2000:]})
             continue
+        if fixcov is not None:
+            fixcov.stop(ctx)
         loaded[fmt] = got
         info[fmt] = {"modules": nmods, "reloaded": len(got), "rechecked": sorted(rechecked),
                      "symbols": sum(len(m["names"]) for m in got.values())}
         ctx.count("traces_validated_against_impl", len(got))
-        if len(got) < nmods - 3:
+        if len(got) < nmods - len(touch) - 3:
             raise ToolFailure(f"warm {fmt} run reloaded only {len(got)} of {nmods} modules: the round trip was not exercised")
-        limit = [4]
+        limit = [int(os.environ.get('VERIF_C11_LIMIT', '4'))]
         differing[fmt] = compare_tables(ctx, fmt, "fresh vs reloaded", {k: fresh[k] for k in got}, got, limit)
         # the property one level up: the warm run must print what the cold run printed
         c1, c2 = canon_msgs(msgs1, corp["root"]), canon_msgs(msgs2, corp["root"])
+        ctx.coverage.setdefault("warm_vs_cold_messages", {})[fmt + tag] = {"cold": len(c1), "warm": len(c2),
+                                                                           "using_modules": len(touch)}
         if c1 != c2:
-            d1 = [m for m in c1 if m not in c2]
-            d2 = [m for m in c2 if m not in c1]
-            td = all("TypedDict" in m for m in d1 + d2)
-            ctx.report({"class": "typeddict-key-order" if td else "warm-output-differs", "format": fmt},
-                       f"warm run ({fmt} cache) prints different messages than the cold run: {d1[:2]} vs {d2[:2]}",
-                       {"cold_only": d1[:6], "warm_only": d2[:6], "format": fmt})
+            by_file: dict[str, tuple[list, list]] = {}
+            for m in c1:
+                if m not in c2:
+                    by_file.setdefault(m.split(":")[0], ([], []))[0].append(m)
+            for m in c2:
+                if m not in c1:
+                    by_file.setdefault(m.split(":")[0], ([], []))[1].append(m)
+            for fn, (d1, d2) in sorted(by_file.items())[:5]:
+                stem = os.path.splitext(os.path.basename(fn))[0]
+                td = bool(d1 + d2) and all("TypedDict" in m for m in d1 + d2) and stem == "c11_td_main"
+                ctx.report({"class": "typeddict-key-order" if td else "warm-output-differs", "format": fmt, "module": stem},
+                           f"warm run ({fmt} cache) prints different messages for {fn} than the cold run: {d1[:2]} vs {d2[:2]}",
+                           {"cold_only": d1[:8], "warm_only": d2[:8], "format": fmt, "using_module": stem,
+                            "sources": {k: v for k, v in SOURCES.items() if k == stem or k == stem.replace("_main", "")
+                                        or (stem.startswith("c11_use") and k == stem.replace("use", "gen"))}})
         del res2
     if "binary" in loaded and "json" in loaded:
         limit = [4]
@@ -1023,6 +1162,31 @@ def replay_symbol(ctx: Ctx, det: dict) -> int:
     return rc
 
 
+def replay_messages(ctx: Ctx, det: dict) -> int:
+    """cold run, touch the using module, warm run: print the messages that differ"""
+    fmt = det.get("format", "binary")
+    root = os.path.join(ctx.tmp, "src")
+    os.makedirs(root, exist_ok=True)
+    files = dict(det.get("sources") or {})
+    use = det["using_module"]
+    if use not in files:
+        print("the replay does not contain the source of", use)
+        return 2
+    for m, text in files.items():
+        with open(os.path.join(root, m + ".py"), "w") as f:
+            f.write(text)
+    corp = {"root": root, "files": files}
+    cache = os.path.join(ctx.tmp, "cache_" + fmt)
+    _, msgs1, _ = run_build(ctx, corp, cache, fmt == "binary")
+    with open(os.path.join(root, use + ".py"), "a") as f:
+        f.write("# touched\n")
+    _, msgs2, _ = run_build(ctx, corp, cache, fmt == "binary")
+    c1, c2 = canon_msgs(msgs1, root), canon_msgs(msgs2, root)
+    print(f"[{fmt}] cold run only:", *[m for m in c1 if m not in c2][:10], sep="\n   ")
+    print(f"[{fmt}] warm run only:", *[m for m in c2 if m not in c1][:10], sep="\n   ")
+    return 1 if c1 != c2 else 0
+
+
 def replay(ctx: Ctx, path: str) -> int:
     body = json.load(open(path))
     rep = body.get("replay", {})
@@ -1078,6 +1242,8 @@ def replay(ctx: Ctx, path: str) -> int:
         sub.findings = []
         determinism_search(sub, {det["module"]: res1.files[det["module"]]}, ff)
         return 1 if sub.violations else 0
+    if cls == "warm-output-differs" and det.get("using_module") and det.get("sources"):
+        return replay_messages(ctx, det)
     if cls in ("attribute-differs", "symbol-missing", "typeddict-key-order", "warm-output-differs", "crash") :
         if "module" not in det and det.get("symbols"):
             det = dict(det["symbols"][0], format=det.get("format", "binary"), sources=det.get("sources"))
